@@ -188,6 +188,14 @@ def compute_dyadic_downscaling(info, source_scale_index, downscaler,
 
     half_chunk = [osz // f
                   for osz, f in zip(old_chunk_size, downscaling_factors)]
+    for nsz, hc, ns in zip(new_chunk_size, half_chunk, new_size):
+        # Each new chunk is assembled from at most 2 downscaled old chunks
+        # per axis, which must be aligned with the new chunk grid.
+        if (hc == 0 or min(nsz, ns) > 2 * hc
+                or (ns > nsz and nsz % hc != 0)):
+            raise ValueError("Unsupported combination of chunk sizes between "
+                             f"scales {old_key} ({old_chunk_size}) and "
+                             f"{new_key} ({new_chunk_size})")
     chunk_fetch_factor = [nsz // hc
                           for nsz, hc in zip(new_chunk_size, half_chunk)]
 
